@@ -9,8 +9,8 @@ from .terms import A, I, V, C, clause, call, and_, or_, then, not_, TRUE, FAIL, 
 
 
 def enumerate_instances(max_nodes, max_nodes2=0, max_sol=2, shard=0, shards=1):
-    cfg = "Codegen-%d-%d-%d-%d-%d.cfg" % (max_nodes, max_nodes2, max_sol, shard, shards)
     import os
+    cfg = "Codegen-%d-%d-%d-%d-%d-%d.cfg" % (max_nodes, max_nodes2, max_sol, shard, shards, os.getpid())
     p = os.path.join(tlc.SPEC, cfg)
     with open(p, "w") as f:
         f.write("SPECIFICATION Spec\nCONSTANTS MaxNodes = %d\nMaxNodes2 = %d\nMaxSol = %d\nShard = %d\nShards = %d\n"
@@ -41,6 +41,8 @@ def conv(b):
 def kinds(b, acc=None):
     acc = set() if acc is None else acc
     acc.add(b["b"])
+    if b["b"] == "call":
+        return acc
     for f in ("l", "r", "c", "t", "g"):
         if f in b and isinstance(b[f], dict):
             kinds(b[f], acc)
